@@ -10,8 +10,8 @@ RULE = ("kinds: fd (JacobianWrapper on random smooth f: R^n -> R^m with arbitrar
         "jac(t,y) / hook / unhook / attribute / assignment on DiffRHS with a time-dependent right-hand side: a user Jacobian is returned whenever attached "
         "(sentinel values), otherwise the derivative at the REQUESTED (t,y)); non-trivial = >=1 Jacobian compared; distinct by (kind, shapes, base order, seed / history)")
 ASSUMPTIONS = ["finite-difference accuracy threshold: 1e-8*(|J|max+1) for smooth maps, 1e4*eps*|A|*n*(1+|x|) for linear maps, 1e-7*(|J|max+1) through DiffRHS (worst observed ratios in evidence)"]
-FLOORS = {"quick": {"fd_jacobians": 200, "fd_linear": 40, "nonsquare_or_matrix_shaped": 80, "wrapper_histories": 100, "wrapper_jac_calls": 400, "unhook_then_jac": 40, "repeated_time_calls": 60, "system_histories": 25, "system_runs_with_user_jacobian": 35, "system_runs_from_a_fresh_integrator": 25, "system_direct_requests": 90},
-          "thorough": {"fd_jacobians": 2000, "fd_linear": 400, "nonsquare_or_matrix_shaped": 800, "wrapper_histories": 1000, "wrapper_jac_calls": 5000, "unhook_then_jac": 400, "repeated_time_calls": 600, "system_histories": 250, "system_runs_with_user_jacobian": 500, "system_runs_from_a_fresh_integrator": 300, "system_direct_requests": 900}}
+FLOORS = {"quick": {"fd_jacobians": 200, "fd_linear": 40, "nonsquare_or_matrix_shaped": 80, "wrapper_histories": 100, "wrapper_jac_calls": 400, "unhook_then_jac": 40, "repeated_time_calls": 60, "system_histories": 25, "system_runs_with_user_jacobian": 35, "system_runs_from_a_fresh_integrator": 25, "system_direct_requests": 90, "wrapper_histories_through_the_prettifier": 40, "facade_runs_with_user_jacobian": 18},
+          "thorough": {"fd_jacobians": 2000, "fd_linear": 400, "nonsquare_or_matrix_shaped": 800, "wrapper_histories": 1000, "wrapper_jac_calls": 5000, "unhook_then_jac": 400, "repeated_time_calls": 600, "system_histories": 250, "system_runs_with_user_jacobian": 500, "system_runs_from_a_fresh_integrator": 300, "system_direct_requests": 900, "wrapper_histories_through_the_prettifier": 400, "facade_runs_with_user_jacobian": 120}}
 SHAPES_X = [(1,), (2,), (3,), (5,), (2, 2), (2, 3), (3, 1)]
 SHAPES_F = [(1,), (2,), (4,), (3,), (2, 2), (3, 2), (1, 3)]
 
@@ -84,13 +84,18 @@ def gen_cases(tier, seed):
         hist.append(["unhook"])
         hist.append(["jac", int(rng.integers(0, 4))])
         hist.append(["jac", int(rng.integers(0, 4))])
-        cases.append(dict(kind="wrapper", attr=bool(rng.random() < 0.25), shape=[int(x) for x in SHAPES_X[int(rng.integers(len(SHAPES_X)))]], hist=hist, pseed=int(rng.integers(1 << 30)), cost=3))
+        cases.append(dict(kind="wrapper", ctor=["DiffRHS", "prettifier_call", "DiffRHS", "prettifier_kw"][len(cases) % 4], attr=bool(rng.random() < (0.25 if len(cases) % 2 == 0 else 0.6)), shape=[int(x) for x in SHAPES_X[int(rng.integers(len(SHAPES_X)))]], hist=hist, pseed=int(rng.integers(1 << 30)), cost=3))
     # the wrapper as it lives inside an OdeSystem: a user Jacobian attached by attribute / hook / assignment stays the one that is used across
     # the system's life-cycle operations (runs, reset, change of method or tolerances, continuation)
     for i in range(30 if tier == "quick" else 300):
         ops = [str(x) for x in rng.choice(["reset", "set_method", "set_tol", "partial", "run", "reset"], size=int(rng.integers(2, 5)))]
         cases.append(dict(kind="system", route=["attr", "hook", "assign"][i % 3], method=str(rng.choice(["RadauIIA5", "BackwardEuler", "GaussLegendre4", "CrankNicolson", "LobattoIIIC4"])),
                           ops=["run"] + ops + ["run"], pseed=int(rng.integers(1 << 30)), cost=6))
+    rngf = rng_for(1607, seed)
+    for i in range(24 if tier == "quick" else 160):
+        cases.append(dict(kind="system", facade=["args", "plain"][i % 2], wrap=["DiffRHS", "prettifier"][(i // 2) % 2], route=["hook", "assign", "attr"][i % 3],
+                          method=str(rngf.choice(["RadauIIA5", "BackwardEuler", "GaussLegendre4", "CrankNicolson", "LobattoIIIC4"])),
+                          ops=[str(x) for x in rngf.choice(["run", "partial", "set_tol"], size=2)] + ["run"], pseed=int(rngf.integers(1 << 30)), cost=6))
     return cases
 
 
@@ -108,15 +113,46 @@ def _system(spec):
         return np.asarray(f.true_jac(t, y), dtype=np.float64)
     rec = util.Rec(sig="system|%s|%s|%s|%d" % (spec["route"], spec["method"], "".join(o[0] + o[-1] for o in spec["ops"]), spec["pseed"] % 101))
     feats = {"kind": "system", "route": spec["route"], "method": spec["method"]}
-    if spec["route"] == "attr":
-        f.jac = uj
     t0, tf = 0.0, 1.5
     y0 = rng_for(1606, spec["pseed"]).uniform(-1, 1, shape)
-    system = sysrun.make_system(f, y0, t0, tf, 0.1, M[spec["method"]]["cls"], rtol=1e-6, atol=1e-8)
-    if spec["route"] == "hook":
-        system.equ_rhs.hook_jacobian_call(uj)
-    elif spec["route"] == "assign":
-        system.equ_rhs.jac = uj
+    if spec.get("facade"):
+        # the functional facade is handed the user's WRAPPER (Jacobian attached to it by hook or assignment, or to the function by attribute),
+        # with or without an args tuple: the system it builds must use that Jacobian
+        def fa(t, y, a, b):
+            return a * f(t, y) + (b - 0.5) * y
+
+        def fplain(t, y, **kw):
+            return f(t, y)
+        target = fa if spec["facade"] == "args" else fplain
+        if spec["route"] == "attr":
+            target.jac = uj
+        W = de.DiffRHS(target) if spec.get("wrap", "DiffRHS") == "DiffRHS" else de.rhs_prettifier(equ_repr="f", md_repr="f")(target)
+        if spec["route"] == "hook":
+            W.hook_jacobian_call(uj)
+        elif spec["route"] == "assign":
+            W.jac = uj
+        feats["facade"] = spec["facade"]
+        kwf = dict(args=(1.0, 0.5)) if spec["facade"] == "args" else {}
+        try:
+            res = de.solve_ivp(W, (t0, t0 + 0.3 * (tf - t0)), y0, method=M[spec["method"]]["cls"], first_step=0.1, rtol=1e-6, atol=1e-8, **kwf)
+        except Exception as e:
+            if type(e).__name__ in ("CaseTimeout", "NoProgress") or type(getattr(e, "__cause__", None)).__name__ in ("CaseTimeout", "NoProgress"):
+                raise
+            rec.violate("jacobian_history_raised", type(e).__name__, dict(feats, op="solve_ivp"), err=repr(e)[:200])
+            return rec.out()
+        system = res.ode_system
+        rec.bump("facade_runs_with_user_jacobian")
+        if calls["n"] == 0:
+            rec.violate("user_jacobian_ignored", "implicit_run_never_called_the_attached_user_jacobian", dict(feats, op="solve_ivp"), user_calls=0, njev=int(system.njev))
+        spec = dict(spec, ops=[o for o in spec["ops"] if o != "reset"] or ["run"])
+    else:
+        if spec["route"] == "attr":
+            f.jac = uj
+        system = sysrun.make_system(f, y0, t0, tf, 0.1, M[spec["method"]]["cls"], rtol=1e-6, atol=1e-8)
+        if spec["route"] == "hook":
+            system.equ_rhs.hook_jacobian_call(uj)
+        elif spec["route"] == "assign":
+            system.equ_rhs.jac = uj
     others = [m for m in ("RadauIIA5", "BackwardEuler", "CrankNicolson", "LobattoIIIC4") if m != spec["method"]]
     rec.bump("system_histories")
     for k, op in enumerate(spec["ops"]):
@@ -148,7 +184,7 @@ def _system(spec):
         if op in ("run", "partial") and stepped:
             rec.bump("system_runs_with_user_jacobian")
             rec.nontrivial = True
-            fresh_integrator = k == 0 or spec["ops"][k - 1] in ("reset", "set_method")
+            fresh_integrator = (k == 0 and not spec.get("facade")) or (k > 0 and spec["ops"][k - 1] in ("reset", "set_method"))      # (the facade's system has run already)
             if fresh_integrator:
                 rec.bump("system_runs_from_a_fresh_integrator")
             # (a continued run may keep working with the Jacobian it already holds: a new request is only certain after the integrator was rebuilt)
@@ -158,7 +194,7 @@ def _system(spec):
         tq = float(system.t[-1])
         yq = np.asarray(system.y[-1])
         n1 = calls["n"]
-        J = np.asarray(system.equ_rhs.jac(tq, yq))
+        J = np.asarray(system.equ_rhs.jac(tq, yq, **dict(system.constants)))
         rec.bump("system_direct_requests")
         if calls["n"] != n1 + 1 or not np.array_equal(J, np.asarray(f.true_jac(tq, yq), dtype=np.float64)):
             rec.violate("user_jacobian_ignored", "attached_user_jacobian_not_returned", f2, user_called=bool(calls["n"] == n1 + 1), step=k)
@@ -282,11 +318,25 @@ def _wrapper(spec):
             user_calls[tag] += 1
             return np.full(shape + shape, SENT[tag]) + np.asarray(t)
         return user_jac
-    if spec["attr"]:
-        f.jac = mk("attr")
-    W = de.DiffRHS(f)
-    rec = util.Rec(sig="wrapper|%s|%s|%s" % (spec["attr"], shape, "".join(h[0][0] + (str(h[1]) if len(h) > 1 else "") for h in spec["hist"])))
-    feats = {"kind": "wrapper", "attr": spec["attr"], "time_set": spec["pseed"] % 4}
+    ctor = spec.get("ctor", "DiffRHS")
+    if ctor == "DiffRHS":
+        if spec["attr"]:
+            f.jac = mk("attr")
+        W = de.DiffRHS(f)
+    else:
+        # a plain function (with the Jacobian as attribute BEFORE it is wrapped, when the case says so) wrapped by the prettifier, in its
+        # call form rhs_prettifier(...)(fn) or through DiffRHS with representations
+        def fn(t, y, **kw):
+            """user right-hand side"""
+            return f(t, y, **kw)
+        if spec["attr"]:
+            fn.jac = mk("attr")
+        fn.note = "user attribute"
+        W = de.rhs_prettifier(equ_repr="dy = f(t, y)", md_repr="$f$")(fn) if ctor == "prettifier_call" else de.DiffRHS(fn, equ_repr="dy = f(t, y)", md_repr="$f$")
+    rec = util.Rec(sig="wrapper|%s|%s|%s|%s" % (spec["attr"], shape, "".join(h[0][0] + (str(h[1]) if len(h) > 1 else "") for h in spec["hist"]), ctor))
+    feats = {"kind": "wrapper", "attr": spec["attr"], "time_set": spec["pseed"] % 4, "ctor": ctor}
+    if ctor != "DiffRHS":
+        rec.bump("wrapper_histories_through_the_prettifier")
     rec.bump("wrapper_histories")
     attached = "attr" if spec["attr"] else None
     last_unhook = False
